@@ -141,4 +141,23 @@ CHECKS = {
         assumptions=['the kernel may coalesce separately written segments: that only weakens a case, it never falsifies one',
                      'message lengths are multiples of 4 (every MTProto packet is)', 'in-memory pipe honours the exact-count read contract that tcpConn.Read provides'],
     ),
+    'C01': dict(
+        pkg='./c01', test='TestC01', level='exploration',
+        quick=dict(shards=4, checks=3000),
+        thorough=dict(shards=16, checks=60000, budget_s=3000),
+        level_text=('Registry-directed round trip: for every registered constructor, hand-written wrapper and enum member (found through a tag-guarded export of '
+                    'the registry) values are built by reflection - all presence patterns of all multi-field flag groups enumerated, boundary string lengths, '
+                    'nested interface/vector values, int/long/double extremes, 128/256-bit integers with leading zeros - and must survive Marshal -> Decode(named type) '
+                    'and Marshal -> DecodeUnknownObject with TL equality, identical bytes on re-serialisation.'),
+        technique='property-based round-trip testing (rapid) with a reflection-driven generator + exhaustive flag-group pattern enumeration',
+        rule=('value = registered Go type x recorded builder choices (depth <= 3 quick / 6 thorough). Non-trivial: contains a multi-field group in present-mixed state, '
+              'a boundary-length string (252..257, 65535..65536, 2^24-1), nesting depth >= 2, a vector of >= 2 elements, a 128/256-bit integer with a leading zero '
+              'byte, or a non-finite/negative-zero double; distinct by hash of (type, choices).'),
+        must_hit=['feat:group-present-mixed', 'feat:str-len-252..257', 'feat:vector>=2', 'feat:depth>=2', 'feat:int128/256-leading-zero', 'feat:double-nonfinite-or-negzero',
+                  'feat:enum-member', 'feat:message-container', 'top-level-enum', 'feat:str-len%4=0', 'feat:str-len%4=1', 'feat:str-len%4=2', 'feat:str-len%4=3'],
+        fold={'ctor:': ('constructors_covered', 1220), 'group:': ('flag_group_states_covered', 60)},
+        assumptions=['values are canonical TL values: mandatory object fields non-nil, object/enum members of a present group non-nil, true-typed members equal the presence of their group',
+                     'TL equality: nil == empty for byte strings and vectors; doubles by bits; -0.0 counts as zero for group presence',
+                     'objects.GzipPacked and objects.MsgCopy are excluded while their known findings are open (counted in excluded_by_known_finding)'],
+    ),
 }
